@@ -72,6 +72,11 @@ CLAIMED = {
   note="Does not decide that reads equal a last-write-wins model over all layouts (a statement about run-time values): merge arithmetic across cache/files/compactions is not decided.",
   technique="static analysis: per-iteration marked path exploration with outcome facts, type-switch/value-switch exhaustiveness, call-shape rules on the read path",
   ref="§9 C02"),
+ "C13": dict(
+  text="Structural clauses of the storage codecs: writer/reader table agreement (WAL entry-type registry = Type() of each entry = reader switch, each tag instantiating the type that reports it; per-key value tag written for a value type = tag under which it is rebuilt, for all five types; block type byte packed by every encoder of a field type = byte both its iterator and array decoders require, distinct across types, dispatchers route a byte to code of its type; every timestamp/integer scheme tag an encoder emits is handled by every decoder dispatch, including the batch decoders' function tables and range guards); the WAL reader advances its valid-byte count only after both reads, the snappy decode and UnmarshalBinary succeeded, unknown entry type is an error, only Next/Reset write the count and Reset restores every field; typed block decode errors surface; no decoded WAL entry stores a slice aliasing the pooled decode buffer; every timestamp delta divided by the power-of-ten divisor was tested for divisibility (index-range cover).",
+  note="Does not decide bit-for-bit equality of decode(encode(v)) with v, simple8b/Gorilla/bit-packing arithmetic, or that the WAL entry decoders' cursor arithmetic stays in bounds for every input ('without crashing' is not claimed: it needs integer reasoning this analysis lacks).",
+  technique="static analysis: typed-AST table extraction and agreement, outcome facts at the count update, who-may-write, alias taint inside UnmarshalBinary, index-range cover between test and division loops",
+  ref="§9 C13"),
 }
 
 NA = {
